@@ -49,7 +49,7 @@ import GenMeta{sfx}
 def main : IO Unit := LspVerif.Driver.testGenMain Gen{sfx}.model
 """
 
-GEN_INST = """import LspVerif.Props.C17Gen3
+GEN_INST = """import LspVerif.Props.C17Gen4
 import GenMeta{sfx}
 open LspVerif LspVerif.TestGen
 
@@ -86,6 +86,35 @@ theorem C17{sfx}_result_labels_sound : ∀ r ∈ C17M{sfx}.requests, ∀ g, genT
   simp only [Bool.and_eq_true] at this
   exact response_result_sound C17M{sfx} C17{sfx}_modelOK r this.2 g h
 
+/-- response vectors: envelope + `result` is a valid response message, the `error` member next to it (finding F1) a valid ResponseError -/
+theorem C17{sfx}_response_labels_sound_partial : ∀ r ∈ C17M{sfx}.requests, ∀ out, genResponse C17M{sfx} r = some out → ∀ m ∈ out, m.1 = true →
+    ∃ base x e, m.2 = Json.obj (base ++ [(n!"result", x), (n!"error", e)]) ∧ validResponse C17M{sfx} r (.obj (base ++ [(n!"result", x)])) = true ∧
+      validTy C17M{sfx} 59 (.ref n!"ResponseError") e = true := by
+  intro r hr out h
+  have := List.all_eq_true.mp (by have := C17{sfx}_message_types_ok; simp only [messageTypesOK{sfx}, Bool.and_eq_true] at this; exact this.1) r hr
+  simp only [Bool.and_eq_true] at this
+  exact response_sound_partial C17M{sfx} C17{sfx}_modelOK r this.2 out h
+
+/-- every message class for which the generation succeeds (it does for this metamodel: the driver run of the same definitions prints no
+    CRASH, and its output equals generate()'s) receives a True vector, which is a valid message -/
+theorem C17{sfx}_every_class_has_true_vector :
+    (∀ r ∈ C17M{sfx}.requests, ∀ out, genRequest C17M{sfx} r = some out → ∃ m ∈ out, m.1 = true ∧ validRequest C17M{sfx} r m.2 = true) ∧
+    (∀ r ∈ C17M{sfx}.requests, ∀ out, genResponse C17M{sfx} r = some out → ∃ m ∈ out, m.1 = true) ∧
+    (∀ r ∈ C17M{sfx}.notifications, ∀ out, genNotification C17M{sfx} r = some out → ∃ m ∈ out, m.1 = true ∧ validNotification C17M{sfx} r m.2 = true) := by
+  have hreq := fun r hr => List.all_eq_true.mp (by have := C17{sfx}_message_types_ok; simp only [messageTypesOK{sfx}, Bool.and_eq_true] at this; exact this.1) r hr
+  have hnot := fun r hr => List.all_eq_true.mp (by have := C17{sfx}_message_types_ok; simp only [messageTypesOK{sfx}, Bool.and_eq_true] at this; exact this.2) r hr
+  refine ⟨fun r hr out h => ?_, fun r hr out h => ?_, fun r hr out h => ?_⟩
+  · have := hreq r hr
+    simp only [Bool.and_eq_true] at this
+    exact request_has_true_vector C17M{sfx} C17{sfx}_modelOK r (fun t ht => by rw [ht] at this; exact this.1) out h
+  · have := hreq r hr
+    simp only [Bool.and_eq_true] at this
+    exact response_has_true_vector C17M{sfx} C17{sfx}_modelOK r this.2 out h
+  · have := hnot r hr
+    exact notification_has_true_vector C17M{sfx} C17{sfx}_modelOK r (fun t ht => by rw [ht] at this; exact this) out h
+
+#print axioms C17{sfx}_response_labels_sound_partial
+#print axioms C17{sfx}_every_class_has_true_vector
 #print axioms C17{sfx}_request_labels_sound
 #print axioms C17{sfx}_notification_labels_sound
 #print axioms C17{sfx}_result_labels_sound
@@ -101,7 +130,8 @@ def generator_model(ctx, sfx, model_path, what, problems):
     mod, err = tables.gen_meta(ctx, [model_path] if model_path else None, modname="GenMeta" + sfx, ns="Gen" + sfx)
     if mod is None:
         raise Broken(f"x_meta failed ({what}): " + err)
-    thms = [f"C17{sfx}_request_labels_sound", f"C17{sfx}_notification_labels_sound", f"C17{sfx}_result_labels_sound"]
+    thms = [f"C17{sfx}_request_labels_sound", f"C17{sfx}_notification_labels_sound", f"C17{sfx}_result_labels_sound",
+            f"C17{sfx}_response_labels_sound_partial", f"C17{sfx}_every_class_has_true_vector"]
     common.write_module(ctx.work, "InstG" + sfx, GEN_INST.replace("{sfx}", sfx))
     main = common.write_module(ctx.work, "MainT" + sfx, GEN_MAIN.replace("{sfx}", sfx))
     res = common.lean_compile(ctx.work, [["InstG" + sfx]])
